@@ -5,8 +5,8 @@ import treeimpl as T
 
 RULE = ("exhaustive: every event string of length <=4 (quick) / <=5 (thorough) over a 15-symbol alphabet (start/end of "
         "a, b, pre, script, rt; prefixed start/end p:a; void br start; unknown end; data 'x', ' ', '\\n ', ''; "
-        "end-of-data with Comment / CData / default class) under three configurations (HTML default; XML-flavoured: "
-        "no void list, no special sets; custom whitespace/container sets); plus seeded random longer strings. "
+        "end-of-data with Comment / CData / default class) under four configurations (HTML default; XML-flavoured: "
+        "no void list, no special sets; custom whitespace/container sets; containers of PreformattedString classes); plus seeded random longer strings. "
         "Non-trivial: the result has >=2 elements. Distinct by (configuration, event string).")
 ASSUMPTIONS = ["events are replayed through the public handle_starttag/handle_endtag/handle_data/endData methods by a harness TreeBuilder"]
 
@@ -20,7 +20,10 @@ EXTRA = [("d", "\x0c"), ("d", "\x0b "), ("d", "\t\r"), ("d", "\xa0"), ("e", "rt"
          ("s", "b", "q", []), ("e", "b", "q"), ("x", 6), ("x", 9)]
 # 'pre' is both whitespace-preserving and a string container here; 'a' is void
 CUSTOM = {"void": ["a"], "pw": ["b", "pre"], "containers": {"a": 8, "pre": 10}}
-CONFIGS = [("html", T.HTML_CFG), ("xml", T.XML_CFG), ("custom", CUSTOM)]
+# string containers whose class is a PreformattedString subclass (CData = 1, Comment = 4): the class of a piece of TEXT is
+# chosen by the container, but whether it is whitespace-collapsed is not (only what the builder itself declares special is kept)
+CUSTOM2 = {"void": ["br"], "pw": ["pre"], "containers": {"b": 1, "rt": 4, "a": 10}}
+CONFIGS = [("html", T.HTML_CFG), ("xml", T.XML_CFG), ("custom", CUSTOM), ("custom2", CUSTOM2)]
 
 
 def prefix_quirk(events):
@@ -124,7 +127,7 @@ def run(ctx):
             check(ctx, cname, cfg, seqs[i:i + 5000])
         ctx.sample({"config": cname, "events": seqs[len(seqs) // 2]})
     ctx.extra_cov["exhaustive"] = True
-    ctx.extra_cov["exhaustive_scope"] = "all event strings of length <=%d over %d symbols x 3 configurations" % (L - 1, len(ALPHA))
+    ctx.extra_cov["exhaustive_scope"] = "all event strings of length <=%d over %d symbols x 4 configurations" % (L - 1, len(ALPHA))
 
 
 def replay(ctx, data):
